@@ -171,6 +171,13 @@ def check_seq(seq, pandas=False, meta=True, forms=False):
             msgs.append("%s: offsets out of range or wrong length" % name)
         if t.size and 2 * t[:, 2].sum() != n - 1:
             msgs.append("%s: 2*sum(count)=%s != n-1=%s" % (name, 2 * t[:, 2].sum(), n - 1))
+    if arr.tolist() != [float(x) for x in seq]:
+        msgs.append("the input array was modified by a rainflow call: %s -> %s" % ([float(x) for x in seq], arr.tolist()))
+        arr = np.array(seq, dtype=float)
+    # tables returned by earlier calls are still intact (no shared output buffers)
+    for name, (t, o) in outs.items():
+        if not (_same(np.ascontiguousarray(t, dtype=float), ref_rf) and _same(np.ascontiguousarray(o).astype(np.int64), ref_os)) and not any(m.startswith(name) for m in msgs):
+            msgs.append("%s: a table returned earlier changed after later rainflow calls (shared output buffer)" % name)
     d = np.diff(arr)
     alternating = bool(n < 3 or (np.all(d != 0) and np.all(d[:-1] * d[1:] < 0)))
     if alternating and np.all(d != 0):
